@@ -74,6 +74,15 @@ theorem generateLoop_trace (ttl ty : Nat) (items : List (List Nat × List Nat)) 
           simp only [bind, Except.bind] at this
           exact this
 
+/-- `zoneFromText` without `$INCLUDE` support (the defaults: no files, `allow_include=False`) -/
+theorem zoneFromText_def (text : List Nat) (origin : Option Name) (rel chk gfix : Bool) :
+    zoneFromText text origin rel chk gfix =
+      (do
+        let (r, z) ← readLoop (text.length + 2) (PState.init text origin rel gfix) []
+        let zorigin := if z.isEmpty then origin else r.zoneOrigin
+        if chk then checkOrigin z zorigin rel
+        pure (z, zorigin) : RM (ZoneMap × Option Name)) := rfl
+
 /-- **the reader equals the denotation of the parser's trace** -/
 theorem readLoop_eq_interp (fuel : Nat) (r : PState) (z : ZoneMap) :
     readLoop fuel r z = interpTrace (parseTrace fuel r) z := by
